@@ -254,6 +254,42 @@ def api_configs(item):
                                                                                           "solo": solo},
                                                replay={"api": ["cloned", c, d, n]})
                                 break
+            # clones of an *unlimited* template, one of which gets a limit afterwards (the limit setter is public API):
+            # the other clone, and the template, stay unlimited and keep no memory of it
+            for c, d, n in itertools.product([4, 24], [0.0, 0.25], [2, 4]):
+                base = a.StreamThrottle(read=a.Throttle(), write=a.Throttle())
+                clones = [base.clone(), base.clone()]
+                clones[0].read.limit = L
+                logs = [[], []]
+                streams = []
+                for k in range(2):
+                    r = FakeReader(logs[k])
+                    r.chunk, r.duration = b"x" * c, d
+                    streams.append(a.ThrottleStreamIO(r, FakeWriter(logs[k]), throttles={"x": clones[k]}))
+
+                async def one2(s_):
+                    for _ in range(n):
+                        await s_.read(c)
+
+                async def main2():
+                    await asyncio.gather(one2(streams[0]), one2(streams[1]))
+
+                w.loop._vtime = 0.0
+                w.loop.iterations = 0
+                w.run(main2())
+                part.evaluations += 1
+                want0 = reference([(c, d, 0.0)] * n, [L])
+                want1 = reference([(c, d, 0.0)] * n, [None])
+                got0, got1 = [t for _, t, _ in logs[0]], [t for _, t, _ in logs[1]]
+                bad = (any(abs(g - x) > 1e-6 for g, x in zip(got1, want1)) or base.read.limit is not None
+                       or clones[1].read.limit is not None
+                       or any(abs(g - x) > 1e-6 + 0.5 / L * (i + 1) for i, (g, x) in enumerate(zip(got0, want0))))
+                if bad:
+                    part.violation({"kind": "limit-set-on-one-clone-leaks-to-the-others"},
+                                   {"c": c, "d": d, "n": n, "limited": got0, "unlimited": got1, "want_limited": want0,
+                                    "want_unlimited": want1, "template_limit": base.read.limit},
+                                   replay={"api": ["clone-then-limit", c, d, n]})
+                    break
             # asymmetric sharing: one stream's I/O is slow (it is accounted late, with an old start time), the other's
             # is instantaneous and keeps folding the window forward (reset_rate 1)
             for c, dA, dB, n in itertools.product([4, 8, 24], [2.0, 0.75, 3.0], [0.0, 0.25], [2, 4, 6]):
